@@ -26,6 +26,7 @@ import (
 	"net"
 	"os"
 	"path/filepath"
+	"runtime"
 	"strings"
 	"sync"
 	"testing"
@@ -218,6 +219,115 @@ func vrrRow(name string, useTLS bool, fault, certPath, keyPath string) string {
 	return fmt.Sprintf("ROW %s first=%d healed=%d ms=%d max=%d badclosed=%d shut=%d live=%d", name, firstLive, h, took.Milliseconds(), maxLive, bc, shut, vrrLive(mgr))
 }
 
+// churn: sessions come and go on a pool of three while other goroutines keep asking the manager to describe itself (the
+// proxy logs its configuration, the debug endpoint renders it): nothing may wedge the session table
+func vrrChurn(name string) string {
+	const size = 3
+	logger := log.NewNoopLogger()
+	setting := config.TCPTLSInfo{ConnectionString: "127.0.0.1:0"}
+	builder := func(cb AddNewMux, lifetime context.Context) (MuxProvider, error) {
+		return NewMuxReceiverProvider(lifetime, "verif-"+name, cb, size, setting, []string{"verif", "mux", "churn"}, logger)
+	}
+	ctx, cancel := context.WithCancel(context.Background())
+	defer cancel()
+	mgr, err := NewCustomMultiMuxManager(ctx, "verif-"+name, builder, []session.StartManagedComponentFn{}, []OnConnectionListUpdate{func(map[string]session.ManagedMuxSession) {}}, logger)
+	if err != nil {
+		return fmt.Sprintf("ROW %s error=%v", name, err)
+	}
+	mgr.Start()
+	addr := mgr.Address()
+	stop := make(chan struct{})
+	var described [8]int64
+	var pwg sync.WaitGroup
+	for p := 0; p < len(described); p++ {
+		pwg.Add(1)
+		go func(p int) {
+			defer pwg.Done()
+			for {
+				select {
+				case <-stop:
+					return
+				default:
+				}
+				_ = mgr.Describe()
+				_ = mgr.CanAcceptConnections()
+				described[p]++
+				runtime.Gosched()
+			}
+		}(p)
+	}
+	waitLive := func(n int) bool {
+		deadline := time.Now().Add(3 * time.Second)
+		for time.Now().Before(deadline) {
+			ch := make(chan int, 1)
+			go func() { ch <- vrrLive(mgr) }()
+			select {
+			case got := <-ch:
+				if got == n {
+					return true
+				}
+			case <-time.After(time.Until(deadline)):
+				return false
+			}
+			time.Sleep(2 * time.Millisecond)
+		}
+		return false
+	}
+	var peers []*yamux.Session
+	stalled := ""
+	for k := 0; k < size && stalled == ""; k++ {
+		s, err := vrrGood(addr, false)
+		if err != nil {
+			return fmt.Sprintf("ROW %s error=%v", name, err)
+		}
+		peers = append(peers, s)
+		if !waitLive(k + 1) {
+			stalled = fmt.Sprintf("fill%d", k)
+		}
+	}
+	cycles := 0
+	for ; cycles < 60 && stalled == ""; cycles++ {
+		_ = peers[0].Close()
+		peers = peers[1:]
+		if !waitLive(size - 1) {
+			stalled = fmt.Sprintf("remove@%d", cycles)
+			break
+		}
+		s, err := vrrGood(addr, false)
+		if err != nil {
+			stalled = fmt.Sprintf("dial@%d", cycles)
+			break
+		}
+		peers = append(peers, s)
+		if !waitLive(size) {
+			stalled = fmt.Sprintf("add@%d", cycles)
+		}
+	}
+	close(stop)
+	pdone := make(chan struct{})
+	go func() { pwg.Wait(); close(pdone) }()
+	describeOK := 1
+	select {
+	case <-pdone:
+	case <-time.After(3 * time.Second):
+		describeOK = 0
+	}
+	cancel()
+	shut := 0
+	select {
+	case <-mgr.CloseChan():
+		shut = 1
+	case <-time.After(5 * time.Second):
+	}
+	for _, s := range peers {
+		_ = s.Close()
+	}
+	if stalled == "" {
+		stalled = "-"
+	}
+	return fmt.Sprintf("ROW %s cycles=%d stalled=%s describe=%d shut=%d", name, cycles, stalled, describeOK, shut)
+}
+
 func TestVerifReceiverRole(t *testing.T) {
 	scn, w, done := verifIO(t)
 	defer done()
@@ -243,6 +353,10 @@ func TestVerifReceiverRole(t *testing.T) {
 					res[i] = fmt.Sprintf("ROW %s PANIC %v", f[1], r)
 				}
 			}()
+			if strings.TrimPrefix(f[3], "fault=") == "churn" {
+				res[i] = vrrChurn(f[1])
+				return
+			}
 			res[i] = vrrRow(f[1], strings.TrimPrefix(f[2], "tls=") == "1", strings.TrimPrefix(f[3], "fault="), cp, kp)
 		}(i, f)
 	}
